@@ -18,6 +18,38 @@ RES_VT = "wac_parser::resolution::AstResolver::validate_target"
 BIN_VT = "wac_types::targets::validate_target"
 
 
+def implicit_set_keys(ctx):
+    """R11.1 `implicit-set-key`: World::implicit_imported_interfaces collects the interfaces behind *every* used type of the
+    world and of its imported interfaces.  Any keyed collection built on the way is keyed by the interface's name
+    (Interface::id); a coarser key (e.g. the local type name) lets two used types of the same name from different interfaces
+    collapse, and one interface drops out of the set the world is considered to import."""
+    db, prov = ctx.db, ctx.prov
+    f = next((g for k, g in db.fns.items() if k.endswith("World::implicit_imported_interfaces")), None)
+    if f is None:
+        ctx.lost("R11.1", "World::implicit_imported_interfaces")
+        return
+    n = 0
+    bad = []
+    for g in db.with_closures(f):
+        ctx.touch(g)
+        for t in g.calls():
+            p = t.path or ""
+            if p.rsplit("::", 1)[-1] in ("insert", "entry") and ("IndexMap" in p or "HashMap" in p or "BTreeMap" in p):
+                n += 1
+                if not prov.slice(g, t.args[1]).has_field("id", "component::Interface"):
+                    bad.append("%s keyed by something other than the interface name" % t.span)
+        if g is not f:
+            for st in g.stmts():
+                if st.lhs.local == 0 and not st.lhs.proj and st.rv.k == "agg" and st.rv.j.get("tuple") and len(st.rv.ops) == 2:
+                    n += 1
+                    if not prov.slice(g, st.rv.ops[0]).has_field("id", "component::Interface"):
+                        bad.append("%s yields an entry keyed by something other than the interface name" % st.span)
+    ctx.ob("R11.1", "implicit-set-key", n >= 1 and not bad,
+           "the implicit-import set (and every keyed collection on the way to it) is keyed by Interface::id (%d site(s))" % n if n and not bad else
+           "implicit_imported_interfaces: %s — used types with equal keys from different interfaces collapse and an interface the world really imports is dropped" % ("; ".join(bad) or "no keyed insertion found"),
+           site=f.span)
+
+
 def run(ctx):
     db, prov = ctx.db, ctx.prov
     for fid, label in ((RES_VT, "resolver"), (BIN_VT, "binary")):
@@ -89,6 +121,8 @@ def run(ctx):
         ok = any((t.path or "").endswith("implicit_imported_interfaces") for t in ai.calls()) and \
             any(s for s in ai.stmts() if any(n == "imports" for pl in [s.rv.place] + [o.place for o in s.rv.ops] if pl is not None for n, o, v in pl.fields()))
         ctx.ob("R11.1", "all-imports", ok, "all_imports = implicit (used) interfaces + explicit imports" if ok else "all_imports misses the implicit or the explicit imports", site=ai.span)
+
+    implicit_set_keys(ctx)
 
     # R11.1 (iv) both implementations look names up with the same discipline (the stand-alone check is semver-aware: NameMap)
     for kind, res_call, what in (("imports", "IndexMap::get", "the world's import for a composition import"),
